@@ -21,6 +21,7 @@ pub fn filter_configs() -> Vec<(&'static str, Option<ProcessedDltFilterConfig>)>
         ("filter that drops everything (empty app-id set, count 1)", Some(ProcessedDltFilterConfig { min_log_level: None, app_ids: Some(set(&[])), ecu_ids: None, context_ids: None, app_id_count: 1, context_id_count: 0 })),
         ("min level Error + ECU ids {ECU1}", Some(ProcessedDltFilterConfig { min_log_level: Some(LogLevel::Error), app_ids: None, ecu_ids: Some(set(&["ECU1"])), context_ids: None, app_id_count: 0, context_id_count: 0 })),
         ("context ids {CTX}, count 2", Some(ProcessedDltFilterConfig { min_log_level: None, app_ids: None, ecu_ids: None, context_ids: Some(set(&["CTX"])), app_id_count: 0, context_id_count: 2 })),
+        ("ECU ids {NOPE} (rejects every message that names its ECU) + min level Fatal", Some(ProcessedDltFilterConfig { min_log_level: Some(LogLevel::Fatal), app_ids: None, ecu_ids: Some(set(&["NOPE"])), context_ids: None, app_id_count: 0, context_id_count: 0 })),
     ]
 }
 
@@ -174,14 +175,14 @@ pub fn run(ctx: &Ctx) {
         let lows = prefix_sweep_lows(ctx.tier);
         let lows = &lows;
         let tier = ctx.tier;
-        ctx.run_family(Family::new("c04.prefix_sweep", prefix_sweep_size(ctx.tier), format!("{} (LEN low bytes {:02x?}) x 5 filter configurations + skipper", PREFIX_SWEEP_ABOUT, lows), move |i, loc| {
+        ctx.run_family(Family::new("c04.prefix_sweep", prefix_sweep_size(ctx.tier), format!("{} (LEN low bytes {:02x?}) x 6 filter configurations + skipper", PREFIX_SWEEP_ABOUT, lows), move |i, loc| {
             loc.input_hash_override = Some(i);
             with_prefix_sweep_case(i, tier, lows, |input, mode| judge(input, mode, &filters[..if tier == Tier::Quick { filters.len() } else { 3 }], loc));
         }).distinct().trace(3000));
     }
     for f in decode_inputs(ctx.tier) {
         let gen = &f.gen;
-        ctx.run_family(Family::new(format!("c04.{}", f.name), f.size * VARIANTS, format!("{} x 3 storage variants x 5 filter configurations + skipper", f.about), move |i, loc| {
+        ctx.run_family(Family::new(format!("c04.{}", f.name), f.size * VARIANTS, format!("{} x 3 storage variants x 6 filter configurations + skipper", f.about), move |i, loc| {
             let (input, mode) = variant(gen(i / VARIANTS), i % VARIANTS);
             judge(&input, mode, filters, loc);
         }));
